@@ -289,7 +289,7 @@ def point_list(draw, hi, max_n=5):
 def klatt_cases(draw):
     hi = draw(st.sampled_from([1.194625, 2.0, 0.75, 10.0]))
     secs = kgspec.skeleton(draw(st.integers(1, 5)), draw(st.integers(1, 5)))
-    dense = draw(st.booleans())
+    dense = draw(st.integers(0, 2)) > 0
     for s in secs:
         if s["kind"] == "points":
             if draw(st.integers(0, 2 if dense else 5)) == 0:
@@ -301,6 +301,8 @@ def klatt_cases(draw):
                         g["tiers"][i] = draw(point_list(hi, 4))
     targets = [s["name"] for s in secs if s["kind"] == "points"] + \
               [f"{s['name']}/{g['name']}" for s in secs if s["kind"] == "container" for g in s["groups"]]
+    # 'formants' is a substring of the amplitude groups' names: modifying it must not touch them
+    targets += ["nasal_antiformants/formants", "tracheal_antiformants/formants", "frication_formants/formants"] * 4
     mods = draw(st.lists(st.tuples(st.sampled_from(targets), st.sampled_from(sorted(MODS))).map(list), max_size=3))
     return {"kg": {"xmin": 0.0, "xmax": hi, "sections": secs}, "trailing_blank": draw(st.integers(0, 3)) > 0, "mods": mods}
 
